@@ -31,6 +31,19 @@ theorem pool_get_tight (p : BsPool) (n : Int) (c : Option Nat) (h0 : 0 < n) (h1 
       conv => lhs; rw [show i = (i - 1) + 1 by omega, Nat.pow_succ]
       omega
     omega
+/-- no class drift: a slice whose capacity is a class capacity `2^i` (every slice `Get` hands out)
+    is filed by `Put` under exactly that class `i`, so it is found again by a `Get` of that class -/
+theorem pool_put_same_class (i : Nat) (hi : i ≤ 31) :
+    BsPool.classOf (2 ^ i) = i ∧ BsPool.putClass (2 ^ i) = i := by
+  have hle : (2 : Nat) ^ i ≤ 2 ^ 31 := Nat.pow_le_pow_right (by decide) hi
+  have hpos : 1 ≤ (2 : Nat) ^ i := Nat.one_le_two_pow
+  obtain ⟨h1, hmin⟩ := Proofs.Pool.classOf_spec (2 ^ i) hpos hle
+  have ha : BsPool.classOf (2 ^ i) ≤ i := hmin i (Nat.le_refl _)
+  have hb : i ≤ BsPool.classOf (2 ^ i) := (Nat.pow_le_pow_iff_right (by decide)).mp h1
+  have he : BsPool.classOf (2 ^ i) = i := by omega
+  refine ⟨he, ?_⟩
+  unfold BsPool.putClass
+  simp [he]
 theorem pool_get_nil (p : BsPool) (n : Int) (c : Option Nat) (h : n ≤ 0) : (p.get n c).2 = none :=
   Proofs.Pool.get_nil p n c h
 
